@@ -1,1 +1,101 @@
+import Proofs.Diff
 import Model.Diff.Text
+/-!
+# C03 — positional-mode result equals the recursive definition of structural difference
+
+What is machine-checked here about the model in positional mode (`zip_ordered_iterables=True`,
+`threshold_to_diff_deeper=0`): the dictionary shortcut never fires, no iterable goes through the
+difflib pass (the result does not depend on the alignment oracle at all, no opcodes are recorded),
+i.e. the model *is* the pairwise recursion.  The comparison of the complete verbose text view with
+the independent ~70-line specification is carried out on the implementation by the harness
+(`harness/props/C03.py: struct_diff`); the Lean statement `C03_model_eq_spec` against a Lean copy of
+that specification is not proved yet (see DESIGN §5/C03).
+-/
+namespace Diff
+open Py
+
+/-- with `threshold_to_diff_deeper = 0` the "too different, report the whole dict" shortcut never fires -/
+theorem C03_threshold_off (cfg : DCfg) (h : cfg.thrNum = 0) (inter union : Nat) :
+    belowThreshold cfg inter union = false := by
+  simp [belowThreshold, h]
+
+mutual
+/-- in positional mode the diff does not consult the alignment oracle and records no opcodes -/
+theorem C03_positional_indep (cfg : DCfg) (hz : cfg.zip = true) (al al' : Align) (hashOf : PyVal → String) :
+    ∀ (a b : PyVal) (steps : List Step),
+      diffV cfg al hashOf steps a b = diffV cfg al' hashOf steps a b ∧ (diffV cfg al hashOf steps a b).opcodes = []
+  | .dict kvs1, b, steps => by
+    cases b with
+    | dict kvs2 =>
+      have hk := C03_kvs_indep cfg hz al al' hashOf kvs1 kvs2 (keysOf cfg steps kvs2) steps
+      have hk2 : ∀ p ∈ diffKVs cfg al' hashOf steps kvs1 kvs2 (keysOf cfg steps kvs2), p.2.opcodes = [] := by
+        rw [← hk.1]; exact hk.2
+      simp only [diffV, hk.1]
+      refine ⟨trivial, ?_⟩
+      split <;> split
+      · rfl
+      · simp only [Result.append_def, List.nil_append]
+        exact foldl_opcodes_nil _ _ hk2
+      · rfl
+      · simp only [Result.append_def, List.nil_append]
+        exact foldl_opcodes_nil _ _ hk2
+    | _ => all_goals simp [diffV]
+  | .list xs, b, steps => by
+    cases b with
+    | list ys => simp only [diffV, iterInOrder, hz]; exact C03_pairs_indep cfg hz al al' hashOf xs ys 0 steps
+    | _ => all_goals simp [diffV]
+  | .tuple xs, b, steps => by
+    cases b with
+    | tuple ys => simp only [diffV, iterInOrder, hz]; exact C03_pairs_indep cfg hz al al' hashOf xs ys 0 steps
+    | _ => all_goals simp [diffV]
+  | .set xs, b, steps => by cases b <;> simp [diffV]
+  | .frozenset xs, b, steps => by cases b <;> simp [diffV]
+  | .none, b, steps => by simp only [diffV]; split <;> simp
+  | .bool _, b, steps => by simp only [diffV]; split <;> simp
+  | .int _, b, steps => by simp only [diffV]; split <;> simp
+  | .float _ _, b, steps => by simp only [diffV]; split <;> simp
+  | .str _, b, steps => by simp only [diffV]; split <;> simp
+  | .bytes _, b, steps => by simp only [diffV]; split <;> simp
+theorem C03_kvs_indep (cfg : DCfg) (hz : cfg.zip = true) (al al' : Align) (hashOf : PyVal → String) :
+    ∀ (rest kvs2 : List (PyVal × PyVal)) (k2s : List PyVal) (steps : List Step),
+      diffKVs cfg al hashOf steps rest kvs2 k2s = diffKVs cfg al' hashOf steps rest kvs2 k2s ∧
+      ∀ p ∈ diffKVs cfg al hashOf steps rest kvs2 k2s, p.2.opcodes = []
+  | [], _, _, _ => by simp [diffKVs]
+  | (k1, v1) :: rest, kvs2, k2s, steps => by
+    have ih := C03_kvs_indep cfg hz al al' hashOf rest kvs2 k2s steps
+    simp only [diffKVs]
+    split
+    · exact ih
+    · split
+      · split
+        · rename_i _ k _ _ v2 _
+          have hv := C03_positional_indep cfg hz al al' hashOf v1 v2 (steps ++ [⟨.dict, some k, some k⟩])
+          refine ⟨by rw [hv.1, ih.1], ?_⟩
+          intro p hp
+          rcases List.mem_cons.1 hp with rfl | hp
+          · simp only; split
+            · rfl
+            · exact hv.2
+          · exact ih.2 p hp
+        · exact ih
+      · exact ih
+theorem C03_pairs_indep (cfg : DCfg) (hz : cfg.zip = true) (al al' : Align) (hashOf : PyVal → String) :
+    ∀ (xs ys : List PyVal) (i : Nat) (steps : List Step),
+      diffPairs cfg al hashOf steps i xs ys = diffPairs cfg al' hashOf steps i xs ys ∧
+      (diffPairs cfg al hashOf steps i xs ys).opcodes = []
+  | [], [], _, _ => by simp [diffPairs]
+  | x :: xs, [], i, steps => by
+    have ih := C03_pairs_indep cfg hz al al' hashOf xs [] (i + 1) steps
+    simp only [diffPairs, ih.1, Result.append_def, true_and, List.nil_append]
+    rw [← ih.1]; exact ih.2
+  | [], y :: ys, i, steps => by simp [diffPairs]
+  | x :: xs, y :: ys, i, steps => by
+    have ih := C03_pairs_indep cfg hz al al' hashOf xs ys (i + 1) steps
+    have hv := C03_positional_indep cfg hz al al' hashOf x y (steps ++ [⟨.iter, some (.int i), some (.int i)⟩])
+    simp only [diffPairs, ih.1, hv.1, Result.append_def, true_and]
+    split
+    · simp only [List.nil_append]; rw [← ih.1]; exact ih.2
+    · rw [← hv.1, ← ih.1, hv.2, ih.2]; rfl
+end
+
+end Diff
